@@ -109,3 +109,6 @@ def run(ctx):
     from skchange.anomaly_detectors import MVCAPA as _MVCAPA
     variants_stream(ctx, "MVCAPA(sparse)", lambda: _MVCAPA(min_segment_length=2, max_segment_length=30, collective_penalty="sparse"), ctx.n(4, 20), p_choices=(2, 3, 4),
                     flat_make=lambda: _MVCAPA(min_segment_length=2, collective_penalty_scale=1e6, point_penalty_scale=1e6))
+    from skchange.costs import L2Cost as _L2c
+    variants_stream(ctx, "MVCAPA(L2Cost saving)", lambda: _MVCAPA(collective_saving=_L2c(param=0.0), point_saving=_L2c(param=0.0), min_segment_length=2, max_segment_length=30),
+                    ctx.n(2, 10), p_choices=(2, 3), nested=("collective_saving__param", 1.5))
